@@ -4,15 +4,21 @@ From RecordUpdate Require Import RecordSet.
 From ME Require Import Base.Machine Base.Fut Base.GenPrelude Gen.RetryGen Model.Retry Proofs.Retry_Spec.
 From ME Require Import Proofs.Retry_C0 Proofs.Retry_C1 Proofs.Retry_C2 Proofs.Retry_C3 Proofs.Retry_C4 Proofs.Retry_C5 Proofs.Retry_C6
   Proofs.Retry_C7 Proofs.Retry_C8 Proofs.Retry_C9 Proofs.Retry_C10 Proofs.Retry_C11 Proofs.Retry_C12 Proofs.Retry_N0 Proofs.Retry_N1
-  Proofs.Retry_N2 Proofs.Retry_N3 Proofs.Retry_N4 Proofs.Retry_N5 Proofs.Retry_N6.
+  Proofs.Retry_N2 Proofs.Retry_N3 Proofs.Retry_N4 Proofs.Retry_N5 Proofs.Retry_N6 Proofs.Retry_N9.
 Import ListNotations RecordSetNotations.
 
-(* what "legitimately waiting" means for a retry future j with queued record r; g = time of the worker's
-   latest scan *)
+(* what the record r of a retry future that is not done looks like in a quiescent state; g = time of the worker's
+   latest scan.  The first two alternatives are "legitimately waiting"; the third is the defect G1: the delegate
+   future was cancelled by somebody else (EEnvCancel), _delegate_callback returned silently, the record stays *)
+Definition inflight_ok (s : st) (r : nat) : Prop :=
+  exists d, jdel (recs s r) = Some d /\ d < ndel s /\ fdone (ds s d) = false /\ dcb s d = true.
+Definition sleeping_ok (s : st) (g : Z) (tau : option Z) (since : Z) (r : nat) : Prop :=
+  jdel (recs s r) = None /\
+  exists x, tau = Some x /\ (0 < x)%Z /\ (g <= since)%Z /\ (g + x <= jwhen (recs s r))%Z.
+Definition foreign_cancelled (s : st) (r : nat) : Prop :=
+  exists d, jdel (recs s r) = Some d /\ d < ndel s /\ fcancelled (ds s d) = true /\ envc s d.
 Definition waiting_ok (s : st) (g : Z) (tau : option Z) (since : Z) (r : nat) : Prop :=
-  (exists d, jdel (recs s r) = Some d /\ d < ndel s /\ fdone (ds s d) = false /\ dcb s d = true) \/
-  (jdel (recs s r) = None /\
-   exists x, tau = Some x /\ (0 < x)%Z /\ (g <= since)%Z /\ (g + x <= jwhen (recs s r))%Z).
+  inflight_ok s r \/ sleeping_ok s g tau since r \/ foreign_cancelled s r.
 
 (* ghost-machine form: g is the time of the worker's latest scan *)
 Lemma retry_no_lost_G s g tau since : reachable_from stepG initG (s, g) -> quiescent s tau since ->
@@ -23,8 +29,8 @@ Proof.
   intros RG Q. pose proof (reachG_proj _ _ RG) as R. destruct (GI_reach _ RG) as (HC & _ & Hb). simpl in HC, Hb.
   pose proof Q as (Q1 & Q2 & Q3). split; [exact (parked_flag_clear s tau since R Q2 Q3)|].
   intros j Hj Hnd. destruct (retry_no_lost_core s tau since R Q j Hj Hnd) as (r & A & B & C).
-  exists r. split; [exact A|]. split; [exact B|]. destruct C as [C|C]; [left; exact C|right].
-  split; [exact C|].
+  exists r. split; [exact A|]. split; [exact B|]. destruct C as [C|[C|C]]; [left; exact C| |right; right; exact C].
+  right. left. split; [exact C|].
   assert (P : wparked s tau) by (right; exists since; auto).
   destruct (HC tau P r A C) as [(t & l & E)|(x & X1 & X2 & X3)].
   - exfalso. destruct (quiescent_prog s tau since R Q t) as [E'|E']; rewrite E' in E; discriminate E.
@@ -41,9 +47,38 @@ Proof.
   split; [exact A|]. intros j Hj Hnd. destruct (B j Hj Hnd) as (r & X & Y & Z). exists r. repeat split; auto. exists g. exact Z.
 Qed.
 
-(* the three-way form of the property statement; the third alternative (delegate future cancelled by somebody
-   else, job kept for ever) cannot arise in this machine: see retry_cancelled_delegate_resolved *)
+(* the three alternatives exclude one another *)
+Lemma waiting_ok_exclusive s g tau since r :
+  ~ (inflight_ok s r /\ sleeping_ok s g tau since r) /\
+  ~ (inflight_ok s r /\ foreign_cancelled s r) /\
+  ~ (sleeping_ok s g tau since r /\ foreign_cancelled s r).
+Proof.
+  split; [|split].
+  - intros [(d & A & _) (B & _)]. congruence.
+  - intros [(d & A & _ & B & _) (d' & A' & _ & B' & _)]. assert (d' = d) by congruence. subst d'.
+    destruct (ds s d); discriminate.
+  - intros [(B & _) (d & A & _)]. congruence.
+Qed.
+
+(* the three-way form of the property statement: a retry future that is not done at quiescence has EXACTLY ONE
+   record in _jobs, and that record is in exactly one of the three situations *)
+Definition xor3 (A B C : Prop) : Prop := (A /\ ~ B /\ ~ C) \/ (~ A /\ B /\ ~ C) \/ (~ A /\ ~ B /\ C).
+
 Lemma retry_no_lost_3 s tau since : reachable_from step init s -> quiescent s tau since ->
+  forall j, j < nfut s -> fdone (rs s j) = false ->
+  exists r, In r (jobs s) /\ jf (recs s r) = j /\
+    (forall r', In r' (jobs s) -> jf (recs s r') = j -> r' = r) /\
+    exists g, xor3 (inflight_ok s r) (sleeping_ok s g tau since r) (foreign_cancelled s r).
+Proof.
+  intros R Q j Hj Hnd. destruct (retry_no_lost s tau since R Q) as [_ B].
+  destruct (B j Hj Hnd) as (r & X & Y & g & Z). exists r. split; [exact X|]. split; [exact Y|]. split.
+  - intros r' X' Y'. apply (retry_one_record s R r' r X' X); [congruence|rewrite Y'; exact Hnd].
+  - exists g. destruct (waiting_ok_exclusive s g tau since r) as (E1 & E2 & E3). unfold xor3.
+    destruct Z as [Z|[Z|Z]]; [left|right; left|right; right]; tauto.
+Qed.
+
+(* the weaker reading used before the machine had EEnvCancel (kept: it is implied) *)
+Lemma retry_no_lost_3_weak s tau since : reachable_from step init s -> quiescent s tau since ->
   forall j, j < nfut s -> fdone (rs s j) = false ->
   exists r, In r (jobs s) /\ jf (recs s r) = j /\
     ((exists d, jdel (recs s r) = Some d /\ fdone (ds s d) = false /\ dcb s d = true) \/
@@ -51,7 +86,9 @@ Lemma retry_no_lost_3 s tau since : reachable_from step init s -> quiescent s ta
      (exists d, jdel (recs s r) = Some d /\ fcancelled (ds s d) = true)).
 Proof.
   intros R Q j Hj Hnd. destruct (retry_no_lost s tau since R Q) as [_ B].
-  destruct (B j Hj Hnd) as (r & X & Y & g & [(d & Z1 & Z2 & Z3 & Z4)|(Z1 & x & Z2 & Z3 & _)]); exists r; repeat split; auto.
+  destruct (B j Hj Hnd) as (r & X & Y & g & [(d & Z1 & Z2 & Z3 & Z4)|[(Z1 & x & Z2 & Z3 & _)|(d & Z1 & Z2 & Z3 & Z4)]]);
+    exists r; repeat split; auto.
   - left. exists d. auto.
   - right. left. split; [exact Z1|]. exists x. auto.
+  - right. right. exists d. auto.
 Qed.
